@@ -117,12 +117,15 @@ def parseOp (kind : String) (kv : KV) : Option DOp :=
   | "ssd" => some (.k (.setSendDefault (b1 (kv.get "v"))))
   | "reimp" => some (.k .reimport)
   | "tx" => some (.tx (kv.get "c") (kv.get "holder")
-      (if kv.get "call" == "burn" then .burn (natOf (kv.get "amt")) else .transfer (kv.get "to") (natOf (kv.get "amt"))))
+      (if kv.get "call" == "burn" then .burn (natOf (kv.get "amt"))
+       else if kv.get "call" == "approve" then .approve (kv.get "to") (natOf (kv.get "amt"))
+       else .transfer (kv.get "to") (natOf (kv.get "amt"))))
   | "txb" => some (.txBatch (kv.get "c") (kv.get "holder")
       ((listOf (kv.get "calls")).filterMap (fun e =>
         match e.splitOn ":" with
         | ["burn", a] => some (.burn (natOf a))
         | ["xfer", to, a] => some (.transfer to (natOf a))
+        | ["approve", to, a] => some (.approve to (natOf a))
         | _ => none)))
   | "sd" => some (.sd (kv.get "c"))
   | "dep" => some (.dep (kv.get "c") (kv.get "by") (natOf (kv.get "sup")))
@@ -299,7 +302,10 @@ def branchOf (s : State) (t : TState) : DOp → String
   | .k .reimport => "reimport"
   | .tx c _ call =>
     let o := ownerTag (match KMap.get? s.reg.byAddr c with | some i => s.reg.getPair i | none => none)
-    (match call with | .burn _ => "tx-burn-" | .transfer to _ => if to == "m.erc20" then "tx-tomod-" else "tx-xfer-") ++ o ++
+    (match call with
+     | .burn _ => "tx-burn-"
+     | .transfer to _ => if to == "m.erc20" then "tx-tomod-" else "tx-xfer-"
+     | .approve to _ => if to == "m.erc20" then "tx-approvemod-" else "tx-approve-") ++ o ++
       (if t.hasCode c then "" else "-nocode")
   | .txBatch c _ calls =>
     let o := ownerTag (match KMap.get? s.reg.byAddr c with | some i => s.reg.getPair i | none => none)
